@@ -323,7 +323,17 @@ def _build(ctx, rng, case, tmp):
                 json.dump(d, fp, indent=int(rng.integers(0, 5)))
             model = BaseModel.load(path)
         else:
-            model = BaseModel.load(json.loads(json.dumps(d)))
+            # documented: settings may be given as a dict. The caller's dict must survive the call (it is "the file") and stay loadable
+            mine = json.loads(json.dumps(d))
+            model = BaseModel.load(mine)
+            ctx.count("dict_loads_with_caller_dict_compared")
+            if mine != json.loads(json.dumps(d)):
+                ctx.violation("load/caller-dict-modified", f"BaseModel.load(dict) modified the caller's dict (keys now {sorted(mine)})", dict(case))
+            else:
+                try:
+                    BaseModel.load(mine)
+                except Exception as e:
+                    ctx.violation("load/dict-not-loadable-twice", f"the same dict could not be loaded a second time: {type(e).__name__}: {str(e)[:120]}", dict(case))
     else:
         raise AssertionError(route)
     return model, info
